@@ -162,7 +162,7 @@ public:
           const Stmt *Call = PM->getParent(P);
           if (MD->isConst()) { out.push_back(mk("read", "const-method:" + MD->getNameAsString(), Call ? Call : P)); return; }
           QualType RT = MD->getReturnType();
-          if (Call && nonConstTarget(RT) && isa<CallExpr>(Call)) { cur = Call; continue; }   // result aliases the element (operator[], getValue(), ...)
+          if (Call && nonConstTarget(RT) && isa<CallExpr>(Call) && accessorName(MD->getNameAsString())) { cur = Call; continue; }   // result aliases the element (operator[], getValue(), ...)
           Use u = mk("write", "method:" + MD->getNameAsString(), Call ? Call : P); u.callee = calleeName(MD); out.push_back(u); return;
         }
         out.push_back(mk("read", "member", P)); return;
@@ -200,7 +200,7 @@ public:
         if (Callee && isa<CXXMethodDecl>(Callee) && argi == 0) {
           auto *MD = cast<CXXMethodDecl>(Callee);
           if (MD->isConst()) { out.push_back(mk("read", "const-op:" + MD->getNameAsString(), P)); return; }
-          if (nonConstTarget(MD->getReturnType()) && OC->getOperator() != OO_Equal && !OC->isAssignmentOp()) { cur = P; continue; }
+          if (nonConstTarget(MD->getReturnType()) && (OC->getOperator() == OO_Subscript || OC->getOperator() == OO_Call || OC->getOperator() == OO_Star || OC->getOperator() == OO_Arrow)) { cur = P; continue; }
           Use u = mk("write", "op:" + MD->getNameAsString(), P); u.callee = calleeName(MD); out.push_back(u); return;
         }
         if (Callee && isa<CXXMethodDecl>(Callee)) { objArg = true; }
@@ -229,6 +229,11 @@ public:
       for (unsigned i = 0; i < nargs; ++i) u.args.push_back(text(argv[i]));
       out.push_back(u); return;
     }
+  }
+  static bool accessorName(const std::string &n) {
+    static const char *names[] = {"operator[]", "operator()", "operator*", "operator->", "getValue", "at", "front", "back", "data", "begin", "end", "get", "baseTypeLowest", "min", "max", "direct_index", "unchecked_index", "unchecked_direct_index", "element", "row", "first", "second"};
+    for (auto *x : names) if (n == x) return true;
+    return false;
   }
   static bool containsExpr(const Stmt *root, const Stmt *x) {
     if (root == x) return true;
@@ -463,6 +468,15 @@ public:
       if (!ME || !isa<FieldDecl>(ME->getMemberDecl())) return true;
       json::Object o{{"k", "fieldw"}, {"field", ME->getMemberDecl()->getNameAsString()}, {"obj", A.objKind(ME->getBase())}, {"rhs", OC->getNumArgs() > 1 ? A.text(OC->getArg(1)) : ""}, {"how", "assign"}};
       base(o, OC); Ev.push_back(std::move(o)); return true;
+    }
+    bool VisitDeclStmt(DeclStmt *DS) {
+      for (auto *D : DS->decls()) if (auto *VD = dyn_cast<VarDecl>(D)) {
+        json::Object o{{"k", "vardecl"}, {"name", VD->getNameAsString()}, {"type", VD->getType().getAsString()}, {"init", VD->getInit() ? A.text(VD->getInit()) : ""}};
+        if (auto *RD = VD->getType()->getAsCXXRecordDecl()) { if (derivesFrom(RD, "PyImath::Task")) o["task"] = true; o["cls"] = RD->getNameAsString(); }
+        if (auto *PT = VD->getType()->getAs<PointerType>()) if (auto *RD = PT->getPointeeType()->getAsCXXRecordDecl()) o["pointee_cls"] = RD->getNameAsString();
+        base(o, DS); Ev.push_back(std::move(o));
+      }
+      return true;
     }
     bool VisitReturnStmt(ReturnStmt *RS) {
       json::Object o{{"k", "return"}, {"text", A.text(RS->getRetValue())}};
